@@ -35,7 +35,7 @@ CONSTANTS
   M_CommitMax,             \* stream.commit keeps the maximum
   M_BusyTakesAll,          \* an action that holds a run receives EVERY event of the stream, also one its selector does not match
   M_SpawnFlushesBusy,      \* processor.Spawn ends by sending a time-out event to every busy action
-  M_DiscardResetsBusy,     \* an action that answers ActionDiscard is no longer busy (doActions: tryResetBusy) -- class K: a run of collapsed
+  M_DiscardResetsBusy,     \* an action that answers ActionDiscard is no longer busy (doActions: tryResetBusy) -- class U: a run of collapsed
                            \* chunks without a held event (the k8s multi-line action) ends that way when its time-out comes
   M_RefusedBackOnce,       \* an event refused by the input's PassEvent is returned to the pool exactly once
   M_TimerFlushesAny        \* the batch heartbeat seals ANY non-empty open batch, also one that holds only split parents
@@ -253,7 +253,7 @@ DoAct(p) ==
                                       [] cls \in {"S", "Y"} /\ KidsPer > 0 -> "spawn" [] OTHER -> "pass")
                 ELSE (CASE cls = "H" -> "hold"
                         [] cls = "C" -> IF pr[p].held # 0 THEN "collapse" ELSE "pass"
-                        [] cls = "K" -> "collapse"                             \* a chunk: kept by the action itself, nothing is held
+                        [] cls = "U" -> "collapse"                             \* a chunk: kept by the action itself, nothing is held
                         [] OTHER -> "pass")
          notify == ~M_NoNotifyOnDiscard
      IN /\ sched' = IF e = 0 THEN sched ELSE Append(sched, <<"do", e, a>>)
@@ -481,6 +481,11 @@ NoCodePanic == /\ \A p \in Procs : pr[p].pc = "attach" => ~st[pr[p].sid].att /\ 
                /\ \A p \in Procs : pr[p].pc = "blockget" /\ st[pr[p].sid].q = <<>> => st[pr[p].sid].away = st[pr[p].sid].com
 \* no wedge (safety form): when nothing can move, the system is quiescent
 NoStuck == (~ENABLED Next) => Quiescent
+\* an action that answers a time-out with discard while it holds nothing has ended its run: the processor does not go back to
+\* waiting on that stream (it would wake up at every time-out for ever and never serve another stream)
+TimeoutEndsTheWait ==
+  [][\A p \in Procs : (pr[p].pc = "act" /\ pr[p].ev = 0 /\ pr[p].act = 1 /\ pr[p].held = 0 /\ pr'[p].ev = 0 /\ pr'[p].pc # "act")
+                         => pr'[p].pc # "blockget"]_vars
 
 EventuallyQuiescent == <>[]Quiescent
 
